@@ -176,6 +176,12 @@ Proof.
   pose proof (encode_length_pos k Hk). specialize (IH Hl). lia.
 Qed.
 
+Lemma items_length_le l : wf_list l -> (length l <= length (flat_map encode l))%nat.
+Proof.
+  induction l as [|x l IH]; intros H; cbn [flat_map length]; [lia|]. destruct H as [Hx Hl]. rewrite app_length.
+  pose proof (encode_length_pos x Hx). specialize (IH Hl). lia.
+Qed.
+
 Lemma not_indef c r : wf c -> (forall l, c <> CMapI l) -> is_indef_map (encode c ++ r) = false.
 Proof.
   intros Hw Hn. destruct (encode_first c Hw) as (b0 & r0 & E0 & Hb0 & _ & Hindef).
@@ -198,10 +204,15 @@ Proof.
     rewrite take_app. reflexivity.
   - cbn [wf] in Hw. destruct Hw as [Hl Hw]. rewrite <- app_assoc, dhead_head by (unfold blen in *; lia).
     change (4 =? 0) with false. change (4 =? 1) with false. change (4 =? 2) with false. change (4 =? 3) with false. change (4 =? 4) with true. cbv iota.
-    unfold blen. rewrite Nat2Z.id. cbn [depth] in Hd. rewrite dec_items_ok by (auto; lia). reflexivity.
+    assert (Hlen : (blen (flat_map encode l ++ r) <? blen l) = false).
+    { unfold blen. rewrite app_length. pose proof (items_length_le l Hw). lia. }
+    rewrite Hlen. unfold blen. rewrite Nat2Z.id. cbn [depth] in Hd. rewrite dec_items_ok by (auto; lia). reflexivity.
   - cbn [wf] in Hw. destruct Hw as [Hl Hw]. rewrite <- app_assoc, dhead_head by (unfold blen in *; lia).
     change (5 =? 0) with false. change (5 =? 1) with false. change (5 =? 2) with false. change (5 =? 3) with false. change (5 =? 4) with false. change (5 =? 5) with true. cbv iota.
-    unfold blen. rewrite Nat2Z.id. cbn [depth] in Hd. fold encpair. rewrite dec_pairs_ok by (auto; lia). reflexivity.
+    fold encpair.
+    assert (Hlen : (blen (flat_map encpair l ++ r) <? blen l) = false).
+    { unfold blen. rewrite app_length. pose proof (pairs_length_le l Hw). lia. }
+    rewrite Hlen. unfold blen. rewrite Nat2Z.id. cbn [depth] in Hd. rewrite dec_pairs_ok by (auto; lia). reflexivity.
   - (* indefinite map *)
     cbn [app is_indef_map]. change (191 =? 191) with true. cbv iota. cbn [tl].
     fold encpair. rewrite <- app_assoc. cbn [app]. cbn [depth] in Hd.
